@@ -367,11 +367,12 @@ def gen_entries(rng, n):
 
 SEPS = [".", ".", ".", "_", "::", "aa", "ab", "aba", "é", "/"]
 FLAT_KEYS_CLEAN = ["a", "b", "c", "k", "x", "key", "z9", ""]
-FLAT_KEYS_ANY = FLAT_KEYS_CLEAN + ["a.b", "x_y", "xa", "ba", "a", "ab", "aba", "b.", ".b", "é", "p::q", "c d", "a/b", "."]
+FLAT_KEYS_ANY = FLAT_KEYS_CLEAN + ["a.b", "x_y", "xa", "ba", "ab", "aba", "b.", ".b", "é", "p::q", "c d", "a/b", "."]
 
 
 def rand_flat_obj(rng, keys, depth, allow_empty):
     n = rng.randint(0 if allow_empty else 1, 3)
+    keys = sorted(set(keys))          # an object has each key once
     ks = rng.sample(keys, min(n, len(keys)))
     kvs = []
     for k in ks:
